@@ -147,12 +147,17 @@ func (op *Opt4RDMapRule) String() string {
 // The input data does not include option code and length bytes.
 func (op *Opt4RDMapRule) FromBytes(data []byte) error {
 	buf := uio.NewBigEndianBuffer(data)
-	op.Prefix4.Mask = net.CIDRMask(int(buf.Read8()), 32)
-	op.Prefix6.Mask = net.CIDRMask(int(buf.Read8()), 128)
+	prefix4Len := buf.Read8()
+	prefix6Len := buf.Read8()
+	op.Prefix4.Mask = net.CIDRMask(int(prefix4Len), 32)
+	op.Prefix6.Mask = net.CIDRMask(int(prefix6Len), 128)
 	op.EABitsLength = buf.Read8()
 	op.WKPAuthorized = (buf.Read8() & opt4RDWKPAuthorizedMask) != 0
 	op.Prefix4.IP = net.IP(buf.CopyN(net.IPv4len))
 	op.Prefix6.IP = net.IP(buf.CopyN(net.IPv6len))
+	if prefix4Len > 32 || prefix6Len > 128 {
+		return fmt.Errorf("invalid 4RD prefix lengths: %d, %d", prefix4Len, prefix6Len)
+	}
 	return buf.FinError()
 }
 
